@@ -8,7 +8,7 @@ from pygen import write_pkg
 from runner import Opts, run_many
 
 PKG = "todopk"
-HEAD = "from __future__ import annotations\nfrom typing import Callable, Generic, TypeVar\n\n\ndef _helper():\n    ...\n\n\ndef make_default() -> int:\n    ...\n\n\nCONST_DEFAULT = 3\n\n\nclass BaseA:\n    pass\n\n\nclass BaseB:\n    pass\n\n\nclass _PrivBase:\n    def helper(self, q: int) -> int:\n        ...\n\n"
+HEAD = "from __future__ import annotations\nfrom abc import ABC\nfrom typing import Callable, Generic, TypeVar\n\n\ndef _helper():\n    ...\n\n\ndef make_default() -> int:\n    ...\n\n\nCONST_DEFAULT = 3\n\n\nclass BaseA:\n    pass\n\n\nclass BaseB:\n    pass\n\n\nclass _PrivBase:\n    def helper(self, q: int) -> int:\n        ...\n\n"
 
 
 def marker_kinds(todos: list[str]) -> list[str]:
@@ -159,7 +159,9 @@ def class_src(name, f) -> str:
         bases = "(BaseA, BaseB, _PrivBase)"
     if "@privfirst" in f:
         bases = "(_PrivBase, BaseA, BaseB)"
-    ctor = f - {"multi", "@privbase", "@privfirst"}
+    if "@abc" in f:
+        bases = "(ABC, BaseA, BaseB)"
+    ctor = f - {"multi", "@privbase", "@privfirst", "@abc"}
     return (f"class {name}{bases}:\n    ok: int\n\n    def __init__({params_src(ctor, 'self')}):\n        ...\n\n"
             f"    def m(self, z: int) -> int:\n        ...\n")
 
